@@ -17,7 +17,11 @@ package main
 // position. For navigation the debugger machine is started headless on a
 // tcell simulation screen and driven through its states (UserFwd / UserBack /
 // Fwd / Back / ScrollToTx / ToggleTool), either on the imported session or
-// on records fed live through ConnectEvent + ClientMsg.
+// on records fed live through ConnectEvent + ClientMsg. Some live sessions
+// have a SECOND client (the decoy: a transformed copy of the main client's
+// records under another machine id and connection), both fed in interleaved
+// ClientMsg batches; the command "select" switches between them through the
+// SelectingClient state.
 //
 // A second, synthetic stream (arbitrary record lists: non-monotone queue
 // ticks and sums, clocks shorter / longer than the index) goes through the
@@ -67,11 +71,12 @@ type C16Msg struct {
 	Queued   bool     `json:"queued,omitempty"`
 	Called   []int    `json:"called,omitempty"`
 	Steps    [][2]int `json:"steps,omitempty"` // (from, to) state indexes, -1 = none, -2 = a name outside the index
+	HTime    uint64   `json:"htime,omitempty"` // receive time in ms (decoy records only; 0: position + 1)
 }
 
 type C16Cmd struct {
-	K    string `json:"k"`              // fwd back scroll scrollid toggle
-	N    int    `json:"n,omitempty"`    // amount / cursor1 / record index of the id (-1: unknown id)
+	K    string `json:"k"`              // fwd back scroll scrollid toggle select
+	N    int    `json:"n,omitempty"`    // amount / cursor1 / record index of the id (-1: unknown id) / select: 0 main client, 1 decoy
 	Tool string `json:"tool,omitempty"` // canceled queued auto empty health checks
 }
 
@@ -80,6 +85,19 @@ type C16Nav struct {
 	Batches int      `json:"batches,omitempty"` // live: number of ClientMsg batches
 	Init    []string `json:"init,omitempty"`    // filters switched on through Params.Filters
 	Cmds    []C16Cmd `json:"cmds"`
+	// live only: a second client "decoy" (connection "conn2") with the main
+	// client's schema
+	Decoy *C16Decoy `json:"decoy,omitempty"`
+}
+
+// C16Decoy: the records of the second client are Msgs (over the main
+// client's state names) or, without them, a copy of the main client's
+// records transformed by a PRNG seeded with Seed (some dropped, accepted /
+// auto flipped, receive times of its own). Seed also fixes the order in
+// which the records of the two clients arrive.
+type C16Decoy struct {
+	Seed uint64   `json:"seed"`
+	Msgs []C16Msg `json:"msgs,omitempty"`
 }
 
 type C16Input struct {
@@ -155,6 +173,8 @@ type c16NavObs struct {
 	// index-out-of-range panic of a handler, 2 in Exception for another
 	// reason, 3 the command never returned (Obs is the previous snapshot)
 	Err int `json:"err,omitempty"`
+	// whose snapshot (Debugger.C): 0 the main client, 1 the decoy, 2 nobody
+	Sel int `json:"sel,omitempty"`
 }
 
 type c16NavStep struct {
@@ -194,6 +214,9 @@ type c16Obs struct {
 	Crashed  bool         `json:"crashed,omitempty"`
 	Hung     bool         `json:"hung,omitempty"`
 	Err      string       `json:"err,omitempty"`
+	// the decoy client: its records as given, the index the debugger derived
+	Msgs2   []c16Rec    `json:"msgs2,omitempty"`
+	Parsed2 []c16Parsed `json:"parsed2,omitempty"`
 }
 
 // ------------------------------------------------------------ the sink
@@ -443,6 +466,11 @@ func c16Synthetic(in *C16Input) (*dbg.DbgMsgStruct, []*dbg.DbgMsgTx) {
 		schema[n] = am.State{}
 	}
 	ms := &dbg.DbgMsgStruct{ID: "src", StatesIndex: names, States: schema}
+	return ms, c16BuildTxs(names, "src", "", in.Msgs)
+}
+
+// c16BuildTxs turns synthetic records into messages of machine machID.
+func c16BuildTxs(names am.S, machID, idPrefix string, msgs []C16Msg) []*dbg.DbgMsgTx {
 	name := func(i int) string {
 		if i == -2 {
 			return am.StateAny
@@ -453,9 +481,12 @@ func c16Synthetic(in *C16Input) (*dbg.DbgMsgStruct, []*dbg.DbgMsgTx) {
 		return names[i]
 	}
 	var txs []*dbg.DbgMsgTx
-	for i, sm := range in.Msgs {
+	for i, sm := range msgs {
 		now := c16Base.Add(time.Duration(i+1) * time.Millisecond)
-		tx := &dbg.DbgMsgTx{MachineID: "src", ID: sm.ID, QueueTick: sm.QTick,
+		if sm.HTime > 0 {
+			now = c16Base.Add(time.Duration(sm.HTime) * time.Millisecond)
+		}
+		tx := &dbg.DbgMsgTx{MachineID: machID, ID: idPrefix + sm.ID, QueueTick: sm.QTick,
 			MutQueueTick: sm.MQTick, MutQueueToken: sm.Token, Accepted: sm.Accepted,
 			IsCheck: sm.Check, IsAuto: sm.Auto, IsQueued: sm.Queued, Time: &now,
 			CalledStatesIdxs: slices.Clone(sm.Called)}
@@ -474,7 +505,48 @@ func c16Synthetic(in *C16Input) (*dbg.DbgMsgStruct, []*dbg.DbgMsgTx) {
 		}
 		txs = append(txs, tx)
 	}
-	return ms, txs
+	return txs
+}
+
+const c16DecoyID = "decoy"
+
+// c16DecoyTxs builds the records of the second client. Must run before the
+// debugger gets the main client's records (hParseMsg rewrites their steps in
+// place): everything the debugger touches is copied.
+func c16DecoyTxs(dc *C16Decoy, names am.S, txs []*dbg.DbgMsgTx) []*dbg.DbgMsgTx {
+	if dc.Msgs != nil {
+		return c16BuildTxs(names, c16DecoyID, "d-", dc.Msgs)
+	}
+	r := NewRng(dc.Seed)
+	var ret []*dbg.DbgMsgTx
+	t := 1
+	for _, tx := range txs {
+		if r.Chance(20) {
+			continue
+		}
+		cp := *tx
+		cp.MachineID = c16DecoyID
+		cp.ID = "d-" + tx.ID
+		cp.Clocks = slices.Clone(tx.Clocks)
+		cp.CalledStates = slices.Clone(tx.CalledStates)
+		cp.CalledStatesIdxs = slices.Clone(tx.CalledStatesIdxs)
+		cp.Steps = nil
+		for _, st := range tx.Steps {
+			sc := *st
+			cp.Steps = append(cp.Steps, &sc)
+		}
+		if r.Chance(25) {
+			cp.Accepted = !cp.Accepted
+		}
+		if r.Chance(10) {
+			cp.IsAuto = !cp.IsAuto
+		}
+		t += r.Intn(3)
+		now := c16Base.Add(time.Duration(t) * time.Millisecond)
+		cp.Time = &now
+		ret = append(ret, &cp)
+	}
+	return ret
 }
 
 // ------------------------------------------------------------ the debugger
@@ -541,6 +613,11 @@ func c16Snap(d *debugger.Debugger) (o c16NavObs, ok bool) {
 		if d.C != nil {
 			o.Filtered = slices.Clone(d.C.MsgTxsFiltered)
 			o.Cursor = d.C.CursorTx1
+			if d.C.Id == c16DecoyID {
+				o.Sel = 1
+			}
+		} else {
+			o.Sel = 2
 		}
 		if d.Mach.IsErr() {
 			o.Err = 2
@@ -587,7 +664,7 @@ func c16Filters(init []string) *types.Filters {
 // c16Headless starts the debugger machine on a simulation screen, loads the
 // session (import or live) and runs the commands. Returns the debugger (its
 // client holds the records) or an error text.
-func c16Headless(in *C16Input, ms *dbg.DbgMsgStruct, txs []*dbg.DbgMsgTx, ids map[string]int,
+func c16Headless(in *C16Input, ms *dbg.DbgMsgStruct, txs, txs2 []*dbg.DbgMsgTx, ids map[string]int,
 	obs *c16Obs, name string,
 ) (*debugger.Debugger, string) {
 	nav := in.Nav
@@ -671,14 +748,42 @@ func c16Headless(in *C16Input, ms *dbg.DbgMsgStruct, txs []*dbg.DbgMsgTx, ids ma
 		if !c16Settle(d) {
 			return d, "settle after connect"
 		}
-		nb := max(nav.Batches, 1)
-		per := (len(txs) + nb - 1) / nb
-		for i := 0; i < len(txs) && loaded; i += max(per, 1) {
-			batch := txs[i:min(i+max(per, 1), len(txs))]
-			conns := make([]string, len(batch))
-			for k := range conns {
-				conns[k] = "conn1"
+		// the arrival order: the main client's records, with the decoy's (if
+		// any) mixed in
+		all := slices.Clone(txs)
+		allConns := make([]string, len(txs))
+		for k := range allConns {
+			allConns[k] = "conn1"
+		}
+		if nav.Decoy != nil {
+			obs.NavMode = 3
+			ms2 := *ms
+			ms2.ID = c16DecoyID
+			mach.Add1(c16ss.ConnectEvent, am.Pass(&types.A{MsgStruct: &ms2, ConnId: "conn2", ClientId: ms2.ID}))
+			if !c16Settle(d) {
+				return d, "settle after the second connect"
 			}
+			if d.Clients[c16DecoyID] == nil {
+				return d, "decoy client missing after connect"
+			}
+			r := NewRng(nav.Decoy.Seed ^ 0x9e3779b97f4a7c15)
+			all, allConns = all[:0:0], allConns[:0:0]
+			i, j := 0, 0
+			for i < len(txs) || j < len(txs2) {
+				if j >= len(txs2) || (i < len(txs) && r.Intn(len(txs)-i+len(txs2)-j) < len(txs)-i) {
+					all, allConns = append(all, txs[i]), append(allConns, "conn1")
+					i++
+				} else {
+					all, allConns = append(all, txs2[j]), append(allConns, "conn2")
+					j++
+				}
+			}
+		}
+		nb := max(nav.Batches, 1)
+		per := (len(all) + nb - 1) / nb
+		for i := 0; i < len(all) && loaded; i += max(per, 1) {
+			batch := all[i:min(i+max(per, 1), len(all))]
+			conns := allConns[i:min(i+max(per, 1), len(all))]
 			loaded = do(func() {
 				mach.Add1(c16ss.ClientMsg, am.Pass(&types.A{MsgsTx: batch, ConnIds: conns}))
 			})
@@ -724,11 +829,50 @@ func c16Headless(in *C16Input, ms *dbg.DbgMsgStruct, txs []*dbg.DbgMsgTx, ids ma
 		case "scrollid":
 			id := "no-such-tx"
 			step.ID = len(ids) + 7
-			if cmd.N >= 0 && cmd.N < len(txs) {
-				id = txs[cmd.N].ID
+			// an id of the client that is selected
+			of := txs
+			if prev.Sel == 1 {
+				of = txs2
+			}
+			if cmd.N >= 0 && cmd.N < len(of) {
+				id = of[cmd.N].ID
 				step.ID = ids[id]
 			}
 			f = func() { mach.Add1(c16ss.ScrollToTx, am.Pass(&types.A{TxId: id})) }
+		case "select":
+			cid := "no-such-client"
+			switch cmd.N {
+			case 0:
+				cid = ms.ID
+			case 1:
+				cid = c16DecoyID
+			}
+			// SelectingClient drops ClientSelected; SelectingClientState forks,
+			// refilters, scrolls and adds ClientSelected again. A rejected
+			// request (the same client, none of that name) leaves it on.
+			f = func() {
+				t0 := mach.Tick(c16ss.SelectingClient)
+				res := mach.Add1(c16ss.SelectingClient, am.Pass(&types.A{ClientId: cid}))
+				if res == am.Canceled {
+					return
+				}
+				if res != am.Executed {
+					// only queued (a timer goroutine of the debugger was driving the
+					// queue; an Eval is no barrier, it is PREpended): once the queue
+					// has drained the request has run or was rejected
+					if !c16Settle(d) || mach.Tick(c16ss.SelectingClient) == t0 {
+						return
+					}
+				}
+				// SelectingClientState has run; its forked part ends with adding
+				// ClientSelected, which takes SelectingClient off again
+				for i := 0; i < 40000; i++ {
+					if mach.Tick(c16ss.SelectingClient) >= t0+2 && mach.Is1(c16ss.ClientSelected) {
+						return
+					}
+					time.Sleep(100 * time.Microsecond)
+				}
+			}
 		case "toggle":
 			f = func() { mach.Add1(c16ss.ToggleTool, am.Pass(&types.A{ToolName: c16Tools[cmd.Tool]})) }
 		default:
@@ -854,9 +998,14 @@ func c16Exec(in *C16Input, name string) *c16Obs {
 
 	// the real debugger
 	var d *debugger.Debugger
+	var txs2 []*dbg.DbgMsgTx
+	if in.Nav != nil && in.Nav.Live && in.Nav.Decoy != nil {
+		txs2 = c16DecoyTxs(in.Nav.Decoy, names, txs)
+		obs.Msgs2 = c16Canon(names, txs2, ids)
+	}
 	if in.Nav != nil {
 		var e string
-		d, e = c16Headless(in, ms, txs, ids, obs, name)
+		d, e = c16Headless(in, ms, txs, txs2, ids, obs, name)
 		if e != "" {
 			obs.Err = "headless: " + e
 			c16Stop(d)
@@ -883,6 +1032,12 @@ func c16Exec(in *C16Input, name string) *c16Obs {
 		obs.Stored = c16Canon(names, c.MsgTxs, ids)
 		obs.Errors = c16Ints(c.Errors)
 		obs.MTime = c.MTimeSum
+		if cl2 := d.Clients[c16DecoyID]; cl2 != nil && obs.NavMode == 3 {
+			obs.Parsed2 = c16CanonParsed(cl2.MsgTxsParsed)
+			if len(cl2.MsgTxs) != len(txs2) {
+				obs.Err = fmt.Sprintf("the decoy holds %d records, %d were sent", len(cl2.MsgTxs), len(txs2))
+			}
+		}
 
 		n := len(c.MsgTxs)
 		var maxQ, maxS uint64
@@ -1016,23 +1171,28 @@ func coqDelta[T any](base, cur []T, pr func(T) string) string {
 
 func c16CoqNavObs(o c16NavObs) string {
 	f := o.Flags
-	return fmt.Sprintf("(mkNavObs (mkFilters %s %s %s %s %s %s %s) %s %s %s %d)",
+	return fmt.Sprintf("(mkNavObs (mkFilters %s %s %s %s %s %s %s) %s %s %s %d %d%%nat)",
 		coqBool(f[0]), coqBool(f[1]), coqBool(f[2]), coqBool(f[3]), coqBool(f[4]), coqBool(f[5]),
-		coqBool(f[6]), coqBool(o.Active), coqNatList(o.Filtered), coqZ(o.Cursor), o.Err)
+		coqBool(f[6]), coqBool(o.Active), coqNatList(o.Filtered), coqZ(o.Cursor), o.Err, o.Sel)
 }
 
 func c16CoqCmd(s c16NavStep) string {
 	switch s.Cmd.K {
 	case "fwd":
-		return fmt.Sprintf("(NFwd %s)", coqZ(s.Cmd.N))
+		return fmt.Sprintf("(NC (NFwd %s))", coqZ(s.Cmd.N))
 	case "back":
-		return fmt.Sprintf("(NBack %s)", coqZ(s.Cmd.N))
+		return fmt.Sprintf("(NC (NBack %s))", coqZ(s.Cmd.N))
 	case "scroll":
-		return fmt.Sprintf("(NScroll %s)", coqZ(s.Cmd.N))
+		return fmt.Sprintf("(NC (NScroll %s))", coqZ(s.Cmd.N))
 	case "scrollid":
-		return fmt.Sprintf("(NScrollId %d%%nat)", s.ID)
+		return fmt.Sprintf("(NC (NScrollId %d%%nat))", s.ID)
+	case "select":
+		if s.Cmd.N < 0 {
+			return "(NSelect 9%nat)"
+		}
+		return fmt.Sprintf("(NSelect %d%%nat)", s.Cmd.N)
 	}
-	return "NRefilter"
+	return "(NC NRefilter)"
 }
 
 func c16Coq(obs *c16Obs) string {
@@ -1082,9 +1242,9 @@ func c16Coq(obs *c16Obs) string {
 	// the later record lists are printed as deltas against the first one
 	// (length + the entries whose printed form differs); Run/EvalC16.unpatch
 	// rebuilds them
-	fmt.Fprintf(&b, " %s\n %s %s\n %s %s)", coqDelta(obs.Msgs, obs.Stored, coqMsg), coqBool(obs.ReImp),
+	fmt.Fprintf(&b, " %s\n %s %s\n %s %s\n %s\n %s)", coqDelta(obs.Msgs, obs.Stored, coqMsg), coqBool(obs.ReImp),
 		coqDelta(obs.Msgs, obs.ReMsgs, coqMsg), coqDelta(obs.Parsed, obs.ReParsed, coqP),
-		coqNatList(obs.ReErrors))
+		coqNatList(obs.ReErrors), joinMap(obs.Msgs2, coqMsg, ";\n  "), joinMap(obs.Parsed2, coqP, ";\n  "))
 	return b.String()
 }
 
@@ -1134,6 +1294,73 @@ func c16GenNav(r *Rng, live bool) *C16Nav {
 		default:
 			nav.Cmds = append(nav.Cmds, C16Cmd{K: "toggle", Tool: tools[r.Intn(len(tools))]})
 		}
+	}
+	return nav
+}
+
+// c16GenNav2: a live session of two clients. The commands come in rounds:
+// some navigation, a switch to the other client, filter toggles WHILE THE
+// OTHER CLIENT IS SELECTED, a switch back, navigation over the client whose
+// view must have followed the toggles. Most sessions keep one group filter
+// (health) on throughout, so that listing stays in force.
+func c16GenNav2(r *Rng) *C16Nav {
+	nav := &C16Nav{Live: true, Batches: r.Range(1, 5), Decoy: &C16Decoy{Seed: r.U64()}}
+	tools := []string{"canceled", "queued", "auto", "empty", "checks"}
+	keep := r.Chance(75)
+	for _, f := range []string{"canceled", "queued", "auto", "autocanceled", "empty", "checks"} {
+		if r.Chance(25) {
+			nav.Init = append(nav.Init, f)
+		}
+	}
+	if keep || r.Chance(25) {
+		nav.Init = append(nav.Init, "health")
+	}
+	if !keep {
+		tools = append(tools, "health")
+	}
+	sel := 0
+	add := func(c ...C16Cmd) { nav.Cmds = append(nav.Cmds, c...) }
+	move := func(n int) {
+		for i := 0; i < n; i++ {
+			switch x := r.Intn(100); {
+			case x < 30:
+				add(C16Cmd{K: "fwd", N: r.Intn(2)}, C16Cmd{K: "back", N: r.Intn(2)})
+			case x < 45:
+				add(C16Cmd{K: "fwd", N: r.Range(0, 5)})
+			case x < 65:
+				add(C16Cmd{K: "back", N: r.Range(0, 5)})
+			case x < 85:
+				add(C16Cmd{K: "scroll", N: r.Range(-1, 45)})
+			default:
+				add(C16Cmd{K: "scrollid", N: r.Range(-1, 45)})
+			}
+		}
+	}
+	toggle := func(n int) {
+		for i := 0; i < n; i++ {
+			add(C16Cmd{K: "toggle", Tool: tools[r.Intn(len(tools))]})
+		}
+	}
+	sw := func() {
+		sel ^= 1
+		add(C16Cmd{K: "select", N: sel})
+	}
+	rounds := r.Range(1, 4)
+	for i := 0; i < rounds; i++ {
+		move(r.Intn(3))
+		if r.Chance(30) {
+			toggle(1)
+		}
+		sw()
+		move(r.Intn(3))
+		toggle(r.Range(1, 2))
+		if r.Chance(12) {
+			// rejected requests: the client that is selected, an unknown one
+			add(C16Cmd{K: "select", N: []int{sel, 7}[r.Intn(2)]})
+		}
+		move(r.Intn(2))
+		sw()
+		move(r.Range(2, 5))
 	}
 	return nav
 }
@@ -1284,7 +1511,23 @@ func runC16(c *Ctx) error {
 		out.Count("auto_records", bucket(na))
 		out.Count("check_records", bucket(nk))
 		out.Count("error_records", bucket(ne))
-		out.Count("nav", []string{"none", "imported", "live"}[obs.NavMode])
+		out.Count("nav", []string{"none", "imported", "live", "live, two clients"}[obs.NavMode])
+		if obs.NavMode == 3 {
+			// switches that took place, and toggles while the decoy was selected
+			nsw, ntg, prevSel := 0, 0, 0
+			for _, st := range obs.Nav {
+				if st.Cmd.K == "toggle" && prevSel == 1 {
+					ntg++
+				}
+				if st.Obs.Err != 3 && st.Obs.Sel != prevSel {
+					nsw++
+				}
+				prevSel = st.Obs.Sel
+			}
+			out.Count("client_switches", bucket(nsw))
+			out.Count("toggles_while_decoy_selected", bucket(ntg))
+			out.Count("decoy_records", bucket(len(obs.Msgs2)))
+		}
 		if obs.NavMode != 0 {
 			out.Count("nav_commands", bucket(len(obs.Nav)))
 			if obs.NavHung {
@@ -1338,12 +1581,17 @@ func runC16(c *Ctx) error {
 		case i%5 == 3:
 			in.Nav = c16GenNav(r, true)
 			kind += "+live"
+		case i%10 == 4:
+			in.Nav = c16GenNav2(r)
+			kind += "+live2"
 		}
 		emit(kind, in)
 	}
 	nSyn := c.N(200, 3000)
 	for i := 0; i < nSyn; i++ {
-		wf := i%3 == 0
+		// sessions that are navigated are well-formed ones (a malformed record
+		// makes hParseMsg add an error to the debugger machine)
+		wf := i%3 == 0 || i%6 == 5
 		in := c16GenSynthetic(r, wf)
 		kind := "synthetic-malformed"
 		if wf {
@@ -1355,6 +1603,9 @@ func runC16(c *Ctx) error {
 		} else if i%6 == 3 {
 			in.Nav = c16GenNav(r, true)
 			kind += "+live"
+		} else if i%6 == 5 {
+			in.Nav = c16GenNav2(r)
+			kind += "+live2"
 		}
 		emit(kind, in)
 	}
@@ -1366,7 +1617,11 @@ func runC16(c *Ctx) error {
 		"than the index, duplicate ids); every lookup is queried on every position (queue ticks 0..max+2, time "+
 		"sums 0..max+2, receive times, all ids + unknown ones, tx -2..n+2 x 7 distances, cursors -1..n+2); 2/5 of "+
 		"the machine cases and 1/3 of the synthetic ones drive the headless debugger (imported or live) with "+
-		"4-24 forward/back/jump/filter commands; distinct by (input, observation); non-trivial = at least one record",
+		"4-24 forward/back/jump/filter commands; another 1/10 of the machine cases and 1/6 of the synthetic ones "+
+		"are live sessions of TWO clients (the decoy: a transformed copy of the records under another machine / "+
+		"connection id, arrival interleaved in 1-5 batches) driven in rounds of navigation / switch to the other "+
+		"client / filter toggles / switch back / navigation; distinct by (input, observation); non-trivial = at "+
+		"least one record",
 		nil)
 	return nil
 }
